@@ -110,6 +110,9 @@ def run(c, chk):
     elif (prepend and own_first) or (append and recurse_first):
         chk.fail('R17.2', 'search-order', c.where(fn), 'directories are searched newest-first: add %s but the search %s'
                  % ('prepends' if prepend else 'appends', 'tests its own directory before the rest of the list' if own_first else 'visits the rest of the list first'))
+    elif (prepend or append) and not recurse_first and not own_first and not any(e.kind == 'call' and e.name == 'cfg_searchpath' for p in paths for e in p.events) \
+            and not any(e.kind == 'store' and False for p in paths for e in p.events):
+        chk.fail('R17.2', 'search-incomplete', c.where(fn), 'cfg_searchpath() never visits the rest of the directory list: only one directory is searched')
     else:
         raise report.Broken('search-path add/search shape not recognised (prepend=%s append=%s recurse_first=%s own_first=%s)' % (prepend, append, recurse_first, own_first))
 
